@@ -19,6 +19,7 @@ def programs(tier):
         for cs in slices.four_argshapes(o, c):
             for ctx in ('return', 'if', 'nested', 'lambda', 'arg_of_call'):
                 out.append(Prog(o, (cs,), ctx, 'param', None))
+                out.append(Prog(o, (cs,), ctx, 'param_nested', None))
                 out.append(Prog(o, (cs,), ctx, 'param_kw', None))
                 out.append(Prog(o, (cs,), ctx, 'param_method', None))
                 if o and o[0][1] in (PO, POK):
@@ -38,11 +39,11 @@ def eval_prog(ld, st):
                      {'program': discovery.show_prog(ld), 'error': '%s: %s' % (type(e).__name__, e)}, {'route': pr.route})
         return
     pl = S.signature(w)
-    F = w.func
+    F = w.func.func if pr.route == 'param_nested' else w.func
     cs = pr.calls[0]
     why = 'plain'
     exp = pl
-    if pr.route in ('param', 'param_method'):
+    if pr.route in ('param', 'param_nested', 'param_method'):
         uva, uvk, hva, hvk = discovery.call_flags(pr, 0)
         if uva or uvk:
             try:
@@ -64,9 +65,12 @@ def eval_prog(ld, st):
     probs = []
     if depths.get(w) != 0:
         probs.append('partial object depth %r, not 0' % (depths.get(w),))
-    if pr.route != 'param_method' and depths.get(F, 1) != 1:
-        probs.append('wrapped function depth %r, not 1' % (depths.get(F),))
-    if why == 'looked-through' and depths.get(ld.callees[0]) not in ((2,) if pr.route != 'param_method' else (2, 3)):
+    nested = 1 if pr.route == 'param_nested' else 0
+    if nested and depths.get(w.func, 1) != 1:
+        probs.append('inner partial object depth %r, not 1' % (depths.get(w.func),))
+    if pr.route != 'param_method' and depths.get(F, 1 + nested) != 1 + nested:
+        probs.append('wrapped function depth %r, not %d' % (depths.get(F), 1 + nested))
+    if why == 'looked-through' and depths.get(ld.callees[0]) not in ((2 + nested,) if pr.route != 'param_method' else (2, 3)):
         probs.append('callee depth %r, not below the partial and the forwarder' % (depths.get(ld.callees[0]),))
     if probs:
         st.violation('partial-of-wrapper-depths', case, {'program': discovery.show_prog(ld), 'reported': str(sig),
@@ -78,6 +82,8 @@ def eval_prog(ld, st):
     # sibling partial objects: the same function and bound positionals, one more bound keyword -- each object has the
     # signature of its own bindings, whatever was retrieved before
     for kw in space.kwpass(shape_of(exp))[:2]:
+        if pr.route == 'param_nested':
+            break
         w2 = functools.partial(w.func, *w.args, **dict(w.keywords, **{kw: ('sibling', kw)}))
         st.inc('transitions')
         try:
